@@ -308,6 +308,7 @@ func encLen(dotu bool, msg string) int {
 }
 
 func (c *Ctx) run(line string) {
+	c.begin(line)
 	obs, nt := execWire(line)
 	c.emit(line, obs, nt)
 }
